@@ -17,6 +17,7 @@ class G:
         self.p_leaf = p_leaf
         self.used = []
         self.top = True
+        self.inexact = False      # True: non-dyadic floats (0.1, 0.7 ...) — only for expressions of continuous operators
 
     # ---- scalars --------------------------------------------------------------------------------
     def num(self, lo=-6, hi=12, allow_none=True, allow_float=True, nonzero=False):
@@ -24,7 +25,10 @@ class G:
         if allow_none and r.random() < self.p_none:
             return None
         if allow_float and r.random() < self.p_float:
-            v = r.randint(lo * 4, hi * 4) / 4.0      # dyadic: float arithmetic on these is exact
+            if self.inexact:
+                v = r.randint(lo * 10, hi * 10) / 10.0
+            else:
+                v = r.randint(lo * 4, hi * 4) / 4.0      # dyadic: float arithmetic on these is exact
         else:
             v = r.randint(lo, hi)
         if nonzero and v == 0:
@@ -70,6 +74,7 @@ class G:
         sub = G(self.rng, self.classes, depth - 1, self.p_none, self.p_float, finite, self.p_leaf)
         sub.used = self.used
         sub.top = False
+        sub.inexact = self.inexact
         return REG[c].gen(sub)
 
     def param(self, value_gen, p_pattern=0.3):
